@@ -15,6 +15,7 @@ m("C01", "length = len+4", "header.py", "size = len(self.payload) + 8", "size = 
 m("C01", "client/session swapped in build", "header.py", "            self.client_id,\n            self.session_id,\n            self.protocol_version,", "            self.session_id,\n            self.client_id,\n            self.protocol_version,")
 m("C01", "only first message of a datagram delivered", "sd.py", "            while data:\n                # 4.2.1, TR_SOMEIP_00140", "            if data:\n                # 4.2.1, TR_SOMEIP_00140")
 m("C01", "payload slice off by one", "header.py", "payload_b, buf_rest = buf_rest[: size - 8], buf_rest[size - 8 :]", "payload_b, buf_rest = buf_rest[: size - 8], buf_rest[size - 7 :]")
+m("C05", "D10 reverted: listeners notified while iterating the live sets", "sd.py", "                for listener in list(listeners):\n                    if listener in listeners:\n                        listener.service_offered(service, source)", "                for listener in listeners:\n                    if listener in listeners:\n                        listener.service_offered(service, source)")
 # ---- C16
 m("C16", "method check before version check", "service.py", "        if someip_message.interface_version != self.version_major:", "        if someip_message.method_id in self.methods and someip_message.interface_version != self.version_major:")
 m("C16", "RESPONSE for REQUEST_NO_RETURN", "service.py", "            and someip_message.message_type == header.SOMEIPMessageType.REQUEST\n", "            and True\n")
@@ -67,7 +68,7 @@ m("C09", "expiry 1 ms early", "sd.py", "                ttl, self._expired, addr
 m("C09", "timer not cancelled on stop", "sd.py", "        if _timeout_handle:\n", "        if _timeout_handle and False:\n")
 m("C09", "D2 reverted: expiry callback deferred", "sd.py", "        # report immediately, like stop(): if this were deferred, a refresh handled in\n        # between would be reported as new before its predecessor is reported expired\n        callback(entry, address)", "        asyncio.get_event_loop().call_soon(callback, entry, address)")
 # ---- C05
-m("C05", "watch-all listeners not told about offers", "sd.py", "        for listener in self.watcher_all_services:\n            listener.service_offered(service, source)", "        for listener in ():\n            listener.service_offered(service, source)")
+m("C05", "watch-all listeners not told about offers", "sd.py", "        for listener in list(self.watcher_all_services):\n            if listener in self.watcher_all_services:\n                listener.service_offered(service, source)", "        for listener in ():\n            if listener in self.watcher_all_services:\n                listener.service_offered(service, source)")
 m("C05", "D1 reverted: removed entries reported via call_soon", "sd.py", "            callback(entry, address)\n\n    def stop_all(self)", "            asyncio.get_event_loop().call_soon(callback, entry, address)\n\n    def stop_all(self)")
 m("C05", "discovery ignores detected reboots", "sd.py", "        self.found_services.stop_all_for_address(addr)", "        pass")
 m("C05", "D8 reverted: watch replay deferred", "sd.py", "                if service.matches_service(s):\n                    listener.service_offered(s, addr)", "                if service.matches_service(s):\n                    asyncio.get_event_loop().call_soon(listener.service_offered, s, addr)")
